@@ -318,6 +318,18 @@ func init() {
 	}
 }
 
+func init() {
+	// net.Listen: sockets are outside the engine. A harness that provides vpNetListen (C28) gets
+	// the call instead and returns a stub listener; without one the path is unsupported.
+	externals["net.Listen"] = func(fr *frame, args []value) value {
+		fn := fr.i.mainPkg.Func("vpNetListen")
+		if fn == nil {
+			fr.i.abort("unsupported", "net.Listen (no vpNetListen in the harness package)")
+		}
+		return call(fr.i, fr, 0, fn, args)
+	}
+}
+
 func extErrorsIs(fr *frame, args []value) value {
 	return fr.i.errorsIs(args[0].(iface), args[1].(iface))
 }
